@@ -33,9 +33,9 @@ zix_system_close_fds(const int fd1, const int fd2)
 
   const ZixStatus st0 = zix_errno_status(errno);
   const int       r1  = fd1 >= 0 ? close(fd1) : 0;
-  const ZixStatus st1 = r1 ? ZIX_STATUS_SUCCESS : zix_errno_status(errno);
+  const ZixStatus st1 = r1 ? zix_errno_status(errno) : ZIX_STATUS_SUCCESS;
   const int       r2  = fd2 >= 0 ? close(fd2) : 0;
-  const ZixStatus st2 = r2 ? ZIX_STATUS_SUCCESS : zix_errno_status(errno);
+  const ZixStatus st2 = r2 ? zix_errno_status(errno) : ZIX_STATUS_SUCCESS;
 
   return st0 ? st0 : st1 ? st1 : st2;
 }
